@@ -760,7 +760,16 @@ def _run_micro(world: World, plan):
             try:
                 await asyncio.wait_for(asyncio.shield(done), GROUP_TIMEOUT)
             except asyncio.TimeoutError:
-                raise RuntimeError('an operation did not return within 120 virtual seconds')
+                # every operation either is accepted or is refused - one that never comes back is neither (the dummy tasks
+                # honour their cancellation within 2 s, the slow disk jobs take 2 s at most)
+                stuck = [o for o in ops if o.call is not None and not o.call.done]
+                for o in stuck[:1]:
+                    world.violate('C03.result', what='never_returned', op=o.name, via=o.via, direction=direction,
+                                  captured=o.captured, waited=bool(o.lock_held))
+                ctx['stuck'] = True
+                for o in stuck:
+                    o.call.task.cancel()
+                break
         await asyncio.sleep(0.01)
         ctx['final'] = ctx['transfer'].state.VALUE.name
         for task in dummies.values():
@@ -809,6 +818,8 @@ def _run_micro(world: World, plan):
             # its behalf is still judged by the edge clause above
             world.probe('caller_cancelled_inside_operation')
             continue
+        if out in ('pending', 'cancelled') and ctx.get('stuck'):
+            continue        # reported as never_returned
         if out in ('pending', 'cancelled'):
             raise RuntimeError(f"operation {op.name} ended as {out}")
         verdict = None
